@@ -255,12 +255,12 @@ void common_fns()
       if (vf::thorough())
         ps = full_range<T>();
     }
-    else if (ps.size() > 48 && !vf::thorough())
+    else if (ps.size() > 48)
     {
-      // quick: an evenly thinned lattice for the bounds (min, max and the values around 0 stay in)
+      // an evenly thinned lattice for the bounds (min, max and the values around 0 stay in): about 48 (quick) / 100 (thorough)
       std::vector<T> q;
       for (std::size_t i = 0; i < ps.size(); ++i)
-        if (i % (ps.size() / 40 + 1) == 0 || i + 1 == ps.size() || (ps[i] >= static_cast<T>(0) && ps[i] <= static_cast<T>(2)) ||
+        if (i % (ps.size() / vf::tier<std::size_t>(40, 96) + 1) == 0 || i + 1 == ps.size() || (ps[i] >= static_cast<T>(0) && ps[i] <= static_cast<T>(2)) ||
             static_cast<i128>(ps[i]) == -1)
           q.push_back(ps[i]);
       ps = q;
